@@ -2,7 +2,7 @@
    Statements only (copied from the lemma libraries); every proof is a bare
    `exact`; see the cited files in coq/proofs for the proofs. *)
 From Coq Require Import List NArith ZArith Bool Arith Sorting.Sorted Sorting.Permutation.
-From D2P Require Import Str Err Xml TableTypes Tables Fmt Merge Collector Walk TokFacts MiscFacts ProjFacts PyVal Source SourceBase ViewFacts SourceViews SourceEscape SourceElem SourceFmt PyHeap SourceHeap SourceHeapRuns SourceCaret SourceFresh SourceRuns.
+From D2P Require Import Str Err Xml TableTypes Tables Fmt Merge Collector Walk TokFacts MiscFacts ProjFacts PyVal Source SourceBase ViewFacts SourceViews SourceEscape SourceElem SourceFmt PyHeap SourceHeap SourceHeapRuns SourceCaret SourceFresh SourceRuns SourceFormatters.
 Import ListNotations.
 Open Scope N_scope.
 Import String.StringSyntax.
@@ -221,3 +221,66 @@ Theorem C07_source_commence_run_style :
                /\ frame_runs h h' ra.
 Proof. exact src_commence_run_elem. Qed.
 Print Assumptions C07_source_commence_run_style.
+
+(* SOURCE TIE, two independent readings agree: attribute_register._format_just_return_tag as translated by the source translator (Python semantics of PyVal.v) computes, for every tag and value, what Fmt.eval_fexpr computes from the formatter expression the TABLE translator reads out of the same function body *)
+Theorem C07_source_format_just_return_tag :
+  forall tag val,
+  S__format_just_return_tag (VStr tag) (VStr val) = lift_str (eval_fexpr fmt_format_just_return_tag tag val).
+Proof. exact src_format_just_return_tag. Qed.
+Print Assumptions C07_source_format_just_return_tag.
+
+(* SOURCE TIE, two independent readings agree: attribute_register._format_strike as translated by the source translator (Python semantics of PyVal.v) computes, for every tag and value, what Fmt.eval_fexpr computes from the formatter expression the TABLE translator reads out of the same function body *)
+Theorem C07_source_format_strike :
+  forall tag val,
+  S__format_strike (VStr tag) (VStr val) = lift_str (eval_fexpr fmt_format_strike tag val).
+Proof. exact src_format_strike. Qed.
+Print Assumptions C07_source_format_strike.
+
+(* SOURCE TIE, two independent readings agree: attribute_register._format_vertAlign as translated by the source translator (Python semantics of PyVal.v) computes, for every tag and value, what Fmt.eval_fexpr computes from the formatter expression the TABLE translator reads out of the same function body *)
+Theorem C07_source_format_vertAlign :
+  forall tag val,
+  S__format_vertAlign (VStr tag) (VStr val) = lift_str (eval_fexpr fmt_format_vertAlign tag val).
+Proof. exact src_format_vertAlign. Qed.
+Print Assumptions C07_source_format_vertAlign.
+
+(* SOURCE TIE, two independent readings agree: attribute_register._format_smallCaps as translated by the source translator (Python semantics of PyVal.v) computes, for every tag and value, what Fmt.eval_fexpr computes from the formatter expression the TABLE translator reads out of the same function body *)
+Theorem C07_source_format_smallCaps :
+  forall tag val,
+  S__format_smallCaps (VStr tag) (VStr val) = lift_str (eval_fexpr fmt_format_smallCaps tag val).
+Proof. exact src_format_smallCaps. Qed.
+Print Assumptions C07_source_format_smallCaps.
+
+(* SOURCE TIE, two independent readings agree: attribute_register._format_caps as translated by the source translator (Python semantics of PyVal.v) computes, for every tag and value, what Fmt.eval_fexpr computes from the formatter expression the TABLE translator reads out of the same function body *)
+Theorem C07_source_format_caps :
+  forall tag val,
+  S__format_caps (VStr tag) (VStr val) = lift_str (eval_fexpr fmt_format_caps tag val).
+Proof. exact src_format_caps. Qed.
+Print Assumptions C07_source_format_caps.
+
+(* SOURCE TIE, two independent readings agree: attribute_register._format_highlight as translated by the source translator (Python semantics of PyVal.v) computes, for every tag and value, what Fmt.eval_fexpr computes from the formatter expression the TABLE translator reads out of the same function body *)
+Theorem C07_source_format_highlight :
+  forall tag val,
+  S__format_highlight (VStr tag) (VStr val) = lift_str (eval_fexpr fmt_format_highlight tag val).
+Proof. exact src_format_highlight. Qed.
+Print Assumptions C07_source_format_highlight.
+
+(* SOURCE TIE, two independent readings agree: attribute_register._format_sz as translated by the source translator (Python semantics of PyVal.v) computes, for every tag and value, what Fmt.eval_fexpr computes from the formatter expression the TABLE translator reads out of the same function body *)
+Theorem C07_source_format_sz :
+  forall tag val,
+  S__format_sz (VStr tag) (VStr val) = lift_str (eval_fexpr fmt_format_sz tag val).
+Proof. exact src_format_sz. Qed.
+Print Assumptions C07_source_format_sz.
+
+(* SOURCE TIE, two independent readings agree: attribute_register._format_color as translated by the source translator (Python semantics of PyVal.v) computes, for every tag and value, what Fmt.eval_fexpr computes from the formatter expression the TABLE translator reads out of the same function body *)
+Theorem C07_source_format_color :
+  forall tag val,
+  S__format_color (VStr tag) (VStr val) = lift_str (eval_fexpr fmt_format_color tag val).
+Proof. exact src_format_color. Qed.
+Print Assumptions C07_source_format_color.
+
+(* SOURCE TIE, two independent readings agree: attribute_register._format_heading as translated by the source translator (Python semantics of PyVal.v) computes, for every tag and value, what Fmt.eval_fexpr computes from the formatter expression the TABLE translator reads out of the same function body *)
+Theorem C07_source_format_heading :
+  forall tag val,
+  S__format_heading (VStr tag) (VStr val) = lift_str (eval_fexpr fmt_format_heading tag val).
+Proof. exact src_format_heading. Qed.
+Print Assumptions C07_source_format_heading.
